@@ -46,9 +46,13 @@ LONG_TEXTS = ["é" * 3000, " " * 9000, "a" * 8191 + "é", "%C3%A9" * 1500, "😀
 HOSTS = ["example.org", "EXAMPLE.org", "é.org", "xn--9ca.org", "::1", "0:0:0:0:0:0:0:1", "fe80::2%en0", "10.0.0.1", "a_b", "bücher.example", "a b", "a/b"]
 TEXTS = ["x", "a b", "a%20b", "é", "..", "x.y", "", "%", "a/b", "k&v=1"]
 SIZES = [0, 1, 2, 8, None, 256, 512]
-STAMPEDE_TEXTS = ["x://:8080/p", "//:77", "x://user@/p", "foo://u:p@:1/?q#f", "http://u:p@h:81/", "http://[fe80::1%eth0]:80/", "https://u@example.com:443/a/b", "ws://:p@h/"]
+STAMPEDE_TEXTS = ["x://:8080/p", "//:77", "x://user@/p", "foo://u:p@:1/?q#f", "http://u:p@h:81/", "http://[fe80::1%eth0]:80/", "https://u@example.com:443/a/b", "ws://:p@h/",
+                  "http://h/p/q.tar.gz?a=1&b=2&a=%20x&c#f%20g", "/rel/p%2Fq/?k=v&k=w", "http://xn--mnchen-3ya.de./%C3%A9?%C3%A9=%E2%82%AC#%F0%9F%98%80"]
 STAMPEDE_COPIES = 12
 NETLOC_ACCESSORS = ["raw_host", "host", "authority", "host_subcomponent", "host_port_subcomponent", "raw_user", "explicit_port", "port", "raw_password", "user", "str", "hash"]
+# every lazily filled view: in each round ALL threads make their first read of the same two of these on the same fresh objects
+STAMPEDE_ACCESSORS = NETLOC_ACCESSORS + ["query", "human_repr", "parts", "raw_parts", "path", "path_safe", "query_string", "fragment", "name", "raw_name", "suffix", "suffixes", "parent", "path_qs",
+                                         "raw_path_qs", "absolute", "bytes", "getstate", "origin", "relative", "password", "raw_authority", "raw_suffixes", "is_default_port"]
 
 
 def plan(tier, seed):
@@ -302,10 +306,17 @@ def run(ctx):
             for u in base:
                 mon.publish(u, rd)
             programs = []
+            off = rd * 2 + ctx.shard * 7 + ctx.seed * 11
+            common = [STAMPEDE_ACCESSORS[off % len(STAMPEDE_ACCESSORS)], STAMPEDE_ACCESSORS[(off + 1) % len(STAMPEDE_ACCESSORS)]]
+            for a_ in common:
+                ctx.count("stampede_accessor_" + a_)
             for ti in range(nthreads):
                 acc = NETLOC_ACCESSORS[ti % len(NETLOC_ACCESSORS)]
                 acc2 = NETLOC_ACCESSORS[(ti * 3 + 1) % len(NETLOC_ACCESSORS)]
-                stampede = [("read", i, acc) for i in range(n_plain, len(base))] + [("read", i, acc2) for i in range(n_plain, len(base))]
+                # half of the stampede objects: everybody's first read is the SAME accessor; the other half: thread-specific ones
+                half = n_plain + (len(base) - n_plain) // 2
+                stampede = [("read", i, common[0]) for i in range(n_plain, half)] + [("read", i, common[1]) for i in range(n_plain, half)]
+                stampede += [("read", i, acc) for i in range(half, len(base))] + [("read", i, acc2) for i in range(half, len(base))]
                 programs.append(stampede + [gen_step(random.Random(f"{ctx.seed}/{rd}/{ti}/{k}"), len(base)) for k in range(nsteps)])
             # sequential expectation on cold twins, default caches
             yarl.cache_configure()
